@@ -17,9 +17,12 @@ var checks = map[string]func(*rules.Ctx){
 	"C04": rules.C04,
 	"C05": rules.C05,
 	"C06": rules.C06,
+	"C07": rules.C07,
 	"C08": rules.C08,
+	"C09": rules.C09,
 	"C11": rules.C11,
 	"C12": rules.C12,
+	"C13": rules.C13,
 	"C14": rules.C14,
 	"C16": rules.C16,
 	"C17": rules.C17,
